@@ -54,6 +54,23 @@ def stream_element(R, tier, seed):
             e = "re (t3 %s 12 12 (fun e => transformed (a3 12 12 %s e) (a3 12 12 %s e))) %s" % (nat(ne), arr(Tm), arr(Kr), arr(o["local_stiff_transformed"]))
             cid = cc.add("[" + e + "]"); meta.append((cid, S["LocalStiffTransformed"], ["transformed"], {"comp": "LocalStiffTransformed", "ny": ny}))
             R.count("beam_elem/%s" % kind); R.mark("be", kind, ny)
+    # element directions far from the usual spanwise ones: steeply swept (direction cosine along x up to 0.98), near-vertical
+    # (winglet-like) and general; the local frame is built from the element axis and the GLOBAL x axis for every one of them
+    for rep in range(3 if tier == "quick" else 8):
+        ny = int(rng.choice([3, 4, 6])); ne = ny - 1
+        dirs = rng.normal(size=(ne, 3)); dirs /= np.linalg.norm(dirs, axis=1)[:, None]
+        for e in range(ne):
+            if e % 2 == 0:
+                cx = float(rng.uniform(0.85, 0.98)) * float(rng.choice([-1, 1])); rest = rng.normal(size=2); rest *= np.sqrt(1 - cx * cx) / np.linalg.norm(rest)
+                dirs[e] = [cx, rest[0], rest[1]]
+        nodes = np.vstack([np.zeros(3), np.cumsum(dirs * rng.uniform(0.5, 3.0, (ne, 1)), axis=0)])
+        mesh = np.stack([nodes - [0.3, 0, 0], nodes + [0.7, 0, 0]])
+        surf = gen.tube_surface(mesh, symmetry=True)
+        o, _, _ = core.run_comp(Transform(surface=surf), {"nodes": nodes}, want_J=False)
+        e = "re (t3 %s 12 12 (transform nodes)) %s" % (nat(ne), arr(o["transform"]))
+        cid = cc.add("let nodes := a2 3 %s in " % arr(nodes) + "[" + e + "]")
+        meta.append((cid, S["Transform"], ["transform"], {"comp": "Transform", "kind": "extreme-directions", "ny": ny, "nodes": nodes.tolist()}))
+        R.count("beam_elem/extreme-directions"); R.mark("be-x", rep)
     R.sample({"component": "beam element chain", "example": meta[0][3]})
     res, errs = cc.run(shard=10)
     for cid, St, labels, desc in meta:
